@@ -269,7 +269,24 @@ def r133(prog, chk):
                    message="the skipExportGlyphs argument is overwritten by the lib value (argument must win; the static and list "
                            "entry points honour it, this path does not)")
     need(n >= 3, "skipExportGlyphs assignments in the compilers not found")
-    chk.minimum("R13.3", 3)
+    # the union over a list of UFOs takes the lib key of EVERY UFO of the list (a sparse-layer UFO has a lib too)
+    pre = prog.ix.get_method(BASE_COMPILER, "preprocess", own=True)
+    ups = [c for c in A.body_nodes(pre.node) if isinstance(c, ast.Call) and isinstance(c.func, ast.Attribute) and c.func.attr in ("update", "__ior__")
+           and T(c.func.value) == "self.skipExportGlyphs"]
+    ups += [st for st in A.stmts_of(pre.node) if isinstance(st, ast.AugAssign) and T(st.target) == "self.skipExportGlyphs"]
+    need(ups, f"cannot interpret {pre.short}: union of the UFOs' skip lists")
+    src = pre.params()[1]
+    for u in ups:
+        loops = [a for a in prog.ix.ancestors(u) if isinstance(a, ast.For)]
+        ok = len(loops) == 1 and T(loops[0].iter) == src and isinstance(loops[0].target, ast.Name)
+        if ok:
+            inner = [g for g in may_conds(prog, pre, u) if g.polarity in (True, False) and any(a is loops[0] for a in prog.ix.ancestors(g.test))]
+            ok = not inner and not [x for x in ast.walk(loops[0]) if isinstance(x, (ast.Break, ast.Return))]
+            v = u.args[0] if isinstance(u, ast.Call) else u.value
+            ok = ok and f"{loops[0].target.id}.lib" in T(v) and "public.skipExportGlyphs" in T(v)
+        chk.ob("R13.3", key(pre, "every UFO of the list contributes its public.skipExportGlyphs"), ok, where(pre, u), detail=f"for ufo in {src}: update(ufo.lib.get(...)) without a per-UFO condition",
+               message=f"{pre.short}: the skip list is no longer the union of the lib keys of all UFOs handed in (some UFOs are passed over): glyphs listed only there are exported")
+    chk.minimum("R13.3", 4)
 
 
 # ----------------------------------------------------------------------------- R13.4
@@ -578,6 +595,8 @@ def r137(prog, chk):
 
 
 MUTANTS = [
+    M("sparse-layer UFOs do not contribute to the skip list (seeded C13f)", "ufo2ft/_compilers/baseCompiler.py", "BaseCompiler.preprocess",
+      "self.skipExportGlyphs.update(ufo.lib.get('public.skipExportGlyphs', []))", "if ufo.layers.defaultLayer is not None and len(ufo) > 0:\n    self.skipExportGlyphs.update(ufo.lib.get('public.skipExportGlyphs', []))", rule="R13.3"),
     M("scripts guessed from skipped glyphs too (mutation scan k=246)", "ufo2ft/featureWriters/baseFeatureWriter.py", "BaseFeatureWriter.guessFontScripts",
       "glyph.name not in glyphSet or glyph.unicodes is None", "glyph.name not in glyphSet and glyph.unicodes is None", rule="R13.4"),
     M("marks of the filtering set not intersected with the glyph set (kern writer 1)", "ufo2ft/featureWriters/kernFeatureWriter.py", "KernFeatureWriter._makeKerningLookup",
